@@ -39,7 +39,7 @@ theorem readFrame_comp (o : ROpts) (decomp : Bytes → Nat → Option Bytes) (ki
     have hb64 : b.length < two64 := by unfold two63 two64 at *; omega
     rw [readUvarint_uvarint b.length (z ++ rest) hb64]
     simp only [asInt_small b.length hb]
-    have h1 : ¬ ((b.length : Int) > Int.ofNat o.maxSize) := by
+    have h1 : ¬ ((b.length : Int) < 0 ∨ (b.length : Int) > Int.ofNat o.maxSize) := by
       simp only [Int.ofNat_eq_coe]; omega
     rw [if_neg h1]
     have hn' : wrapInt ((zl : Int) - Int.ofNat (readCompExtra b.length)) = (z.length : Int) := by
@@ -57,8 +57,6 @@ theorem readFrame_comp (o : ROpts) (decomp : Bytes → Nat → Option Bytes) (ki
       simp
     rw [hp]
     simp only
-    have h5 : ¬ ((b.length : Int) < 0) := by omega
-    rw [if_neg h5]
     have h6 : (UInt8.ofNat compressionFormatLZ4).toNat = compressionFormatLZ4 := ofNatByte _ (by decide)
     simp only [h6, ne_eq, not_true_eq_false, if_false, Int.toNat_natCast, hd]
 
